@@ -5,7 +5,7 @@ from enum import Enum
 
 import attrs
 
-from ..utils import entry_points
+from ..utils import dump_json_atomically, entry_points
 from .exceptions import TargetError
 
 logger = logging.getLogger(__name__)
@@ -101,6 +101,9 @@ class TrackingBackend:
         job_id = self.ops.submit_target(target, dependency_ids)
         self._tracked_jobs[target.name] = job_id
         self._job_states[job_id] = BackendStatus.SUBMITTED
+        # Persist right away: if gwf is interrupted before close() the accepted
+        # job must not be forgotten (it would be submitted a second time).
+        self._dump_tracked_jobs()
 
     def cancel(self, target):
         try:
@@ -108,10 +111,12 @@ class TrackingBackend:
         except KeyError as exc:
             raise TargetError(target.name) from exc
 
+    def _dump_tracked_jobs(self):
+        dump_json_atomically(self._tracked_jobs, self._get_state_path())
+
     def close(self):
         self.ops.close()
-        with open(self._get_state_path(), "w") as state_file:
-            json.dump(self._tracked_jobs, state_file)
+        self._dump_tracked_jobs()
 
     @property
     def target_defaults(self):
